@@ -247,13 +247,22 @@ func runC14(seed int64, tier string, sc *Script) map[string]any {
 		sc.NonTrivial()
 		skipGC := ri%4 == 3
 		injectDeleteFailure := ri%5 == 4
-		reg := newFakeRegistry(regProfile{ReferrersAPI: false, DigestHeaders: true})
+		echo := ri%2 == 1
+		reg := newFakeRegistry(regProfile{ReferrersAPI: false, DigestHeaders: true, EchoSubject: echo})
 		repo, err := remote.NewRepository(reg.Host() + "/test/repo")
 		if err != nil {
 			panic(err)
 		}
 		repo.PlainHTTP = true
 		repo.SkipReferrersGC = skipGC
+		if echo {
+			// the capability is settled (no Referrers API) before any response can claim otherwise:
+			// it must not flip when manifest PUTs come back with an OCI-Subject header
+			if err := repo.SetReferrersCapability(false); err != nil {
+				panic(err)
+			}
+			sc.Count("registry:echoes-oci-subject")
+		}
 		// subjects
 		nSubj := 1 + rng.Intn(3)
 		var subjects []ocispec.Descriptor
